@@ -124,6 +124,10 @@ def extra_item(what, epoch, ver, version, ref_items):
             if it.ct == hs and it.kind() in (what, 'HRR' if what == 'SH' else what):
                 return Item(hs, it.data, epoch, ver)
         return None
+    if what == 'AlertNoCert':
+        # the SSLv3-only way of saying "no client certificate"
+        return Item(ContentType.alert, Alert().create(AlertDescription.no_certificate, AlertLevel.warning).write(),
+                    epoch, ver)
     if what == 'AlertWarn':
         return Item(ContentType.alert, Alert().create(AlertDescription.user_canceled, AlertLevel.warning).write(),
                     epoch, ver)
@@ -623,6 +627,18 @@ def flavour_setup(fl):
         if fl.get('npn'):
             ckw['nextProtos'] = [b'http/1.1']
             skw['nextProtos'] = [b'http/1.1']
+        # boundary values of the options that decide which messages are mandatory: None / [] / [x]
+        if 'npn_c' in fl:
+            ckw['nextProtos'] = None if fl['npn_c'] is None else [x.encode() for x in fl['npn_c']]
+        if 'npn_s' in fl:
+            skw['nextProtos'] = None if fl['npn_s'] is None else [x.encode() for x in fl['npn_s']]
+        if fl.get('alpn'):
+            ckw['alpn'] = [b'http/1.1']
+            skw['alpn'] = [b'http/1.1']
+        if 'tk_keys' in fl:
+            ss.ticketKeys = [bytearray(b'\x07' * 32)] if fl['tk_keys'] else []
+        if 'tk_count' in fl:
+            ss.ticket_count = fl['tk_count']
     else:
         if kx == 'psk13':
             cs.pskConfigs = [PSK]
@@ -655,6 +671,54 @@ def start_gens(pair, kind, ckw, skw):
         cg = pair.client.handshakeClientSRP(async_=True, **ckw)
     sg = pair.server.handshakeServerAsync(**skw)
     return cg, sg
+
+
+def plaintext_handshake(chunks):
+    """handshake messages of the unprotected first flight(s) in a byte stream: [(type, bytes)]"""
+    data = b''.join(bytes(c) for c in chunks)
+    out, buf, i = [], b'', 0
+    while i + 5 <= len(data):
+        ct, ln = data[i], (data[i + 3] << 8) | data[i + 4]
+        body = data[i + 5:i + 5 + ln]
+        i += 5 + ln
+        if ct == ContentType.change_cipher_spec:
+            break
+        if ct != ContentType.handshake:
+            continue
+        buf += body
+        while len(buf) >= 4:
+            n = (buf[1] << 16) | (buf[2] << 8) | buf[3]
+            if len(buf) < 4 + n:
+                break
+            out.append((buf[0], buf[:4 + n]))
+            buf = buf[4 + n:]
+    return out
+
+
+def observed_flags(eut_is_client, eut_msgs, peer_msgs, version):
+    """what the wire says about the negotiated options (the EMISSION side): which extensions the
+    ServerHello carried, whether a CertificateRequest / HelloRetryRequest was sent"""
+    from tlslite.messages import ServerHello
+    from tlslite.utils.codec import Parser
+    from tlslite.constants import ExtensionType
+    srv = peer_msgs if eut_is_client else eut_msgs
+    obs = {}
+    shs = [m for (t, m) in srv if t == HandshakeType.server_hello]
+    real = [m for m in shs if hs_kind(m) == 'SH']
+    obs['hrr'] = any(hs_kind(m) == 'HRR' for m in shs)
+    if real:
+        try:
+            sh = ServerHello().parse(Parser(bytearray(real[0][1:])))
+            exts = set(e.extType for e in (sh.extensions or []))
+            obs['npn'] = ExtensionType.supports_npn in exts
+            obs['ticket'] = ExtensionType.session_ticket in exts
+            obs['alpn'] = ExtensionType.alpn in exts
+        except Exception as e:  # noqa
+            obs['parse_error'] = repr(e)
+    if version < (3, 4):
+        obs['reqcert'] = any(t == HandshakeType.certificate_request for (t, m) in srv)
+        obs['full'] = any(t == HandshakeType.server_hello_done for (t, m) in srv)
+    return obs
 
 
 def run_live(fl, ops, post=None, seed=1):
@@ -718,6 +782,10 @@ def run_live(fl, ops, post=None, seed=1):
                'eut_closed': bool(eut.closed), 'resumed': bool(getattr(eut, 'resumed', False)),
                'eut_readbuf': len(eut._readBuffer),
                'eut_tickets12': len(eut.tls_1_0_tickets), 'swallowed': list(dp.swallowed_warnings)}
+        eut_sock = pair.csock if eut_is_client else pair.ssock
+        out['observed'] = observed_flags(eut_is_client, plaintext_handshake(eut_sock.sent_log),
+                                         [(i.data[0], i.data) for i in dp.sent_items if i.ct == ContentType.handshake],
+                                         VERS[fl['ver']])
         if res[ei][0] == 'exc' and out['eut'][0] == 'Other':
             out['eut_exc'] = repr(res[ei][1])
         if post is not None and out['eut'][0] == 'ok':
